@@ -46,7 +46,14 @@ func (e1Engine) Gen(prop string, seed int64, tier string) *Plan {
 		p.Cfg["col"] = 0
 		p.Cfg["enc"] = 1 + r.IntN(2)         // 1 doc-level, 2 field-level
 		p.Cfg["keyless"] = r.IntN(1<<n) &^ 1 // node 0 always holds keys
+		p.Cfg["encsel"] = r.IntN(16)
+		p.Cfg["encrot"] = r.IntN(6)
 		p.Cfg["sign"] = 0
+	}
+	// "narrow" plans write few fields with few values, so that replicas often write the very same
+	// value on the same field head (content-identical field blocks) and ties at equal height abound
+	if prop != "C11" && prop != "C19" && chance(r, 35) {
+		p.Cfg["narrow"] = 1
 	}
 	nops := 4 + r.IntN(27)
 	if tier == "quick" {
@@ -661,8 +668,10 @@ func (r *e1Run) doCreate(step, node, slot int) {
 			}
 		}
 		// name stays the slot marker (docID uniqueness) unless encrypted at field level: then make it secret too
-		if v, ok := r.secretValue(fieldByName("name"), "create"); ok {
-			lits["name"], wants["name"] = v.Lit, v.Want
+		if r.isEncField("name") {
+			if v, ok := r.secretValue(fieldByName("name"), "create"); ok {
+				lits["name"], wants["name"] = v.Lit, v.Want
+			}
 		}
 	}
 	nd := r.nodes[node]
@@ -755,6 +764,10 @@ func (r *e1Run) doUpdate(step, node, slot, fsel, vsel int) {
 	incs := map[string]float64{}
 	counters := 0
 	avail := r.writableFields(node)
+	if r.p.cfg("narrow", 0) == 1 {
+		avail = []fieldSpec{*fieldByName("name"), *fieldByName("name"), *fieldByName("points")}
+		nf = 1
+	}
 	for k := 0; k < nf; k++ {
 		f := avail[mod(fsel+k*7, len(avail))]
 		if _, dup := lits[f.Name]; dup {
@@ -767,6 +780,9 @@ func (r *e1Run) doUpdate(step, node, slot, fsel, vsel int) {
 			counters++
 		}
 		v := f.Pool[mod(vsel+k*3, len(f.Pool))]
+		if r.p.cfg("narrow", 0) == 1 && !f.Counter {
+			v = f.Pool[2+mod(vsel, 2)] // "a" or "b"
+		}
 		if r.encOn() && r.isEncField(f.Name) {
 			if sv, ok := r.secretValue(&f, "update"); ok {
 				v = sv
